@@ -344,6 +344,9 @@ def check(pid, tier="quick", seed=None, jobs=None, count=None, write_evidence=Tr
     total_disc = sum(discards.values())
     if evaluations and total_disc > 0.2 * max(1, stats.get("clauses_checked", evaluations)):
         print(f"WARNING: discard volume {total_disc} vs {stats.get('clauses_checked', evaluations)} checked clauses: {discards}")
+    zero_probes = [n for n in getattr(mod, "PROBES", []) if not stats.get(n)]
+    for n in zero_probes:
+        print(f"PROBE-ZERO: {pid} reach probe '{n}' was never hit in this run (the workload, not the oracle, needs re-biasing)")
     if write_evidence and evaluations:
         ev = {
             "property_id": pid,
@@ -365,6 +368,8 @@ def check(pid, tier="quick", seed=None, jobs=None, count=None, write_evidence=Tr
                 "sessions_per_hour": int(sessions / wall * 3600) if wall > 0 else 0,
                 "faults_fired": faults,
                 "counters_and_reach_probes": dict(sorted(stats.items())),
+                "reach_probes_required": list(getattr(mod, "PROBES", [])),
+                "reach_probes_at_zero": zero_probes,
                 "discards": discards,
                 "known_findings_met": [l for l in known_lines],
                 "stopped_early_by_wall_cap": stopped_early,
